@@ -140,6 +140,14 @@ struct Ctx
         vsnprintf(buf, sizeof(buf), fmt, ap);
         va_end(ap);
         rep->render += buf;
+        static int trace = -1;
+        if (trace < 0) { trace = getenv("VP_TRACE") ? 1 : 0; }
+        if (trace)
+        {
+            // replay mode: print as we go, so a sanitizer abort still shows the decoded prefix
+            fputs(buf, stdout);
+            fflush(stdout);
+        }
     }
     __attribute__((format(printf, 3, 4), noreturn)) void fail(char const *sig, char const *fmt, ...)
     {
